@@ -223,7 +223,7 @@ def run(prop_id, tier, seed):
         s.setdefault('tier', tier)
         s.setdefault('seed', seed)
         s.setdefault('shard', i)
-    timeout_s = getattr(mod, 'SHARD_TIMEOUT', {}).get(tier, 1800 if tier == 'quick' else 7200)
+    timeout_s = getattr(mod, 'SHARD_TIMEOUT', {}).get(tier, 900 if tier == 'quick' else 7200)
     workdir = tempfile.mkdtemp(prefix='rv-%s-' % prop_id)
     try:
         results, errors = _run_workers(prop_id, specs, workdir, timeout_s)
